@@ -168,6 +168,20 @@ Definition case_run (E : genv) (G : gp_params) (n_trees iters : nat) (picks : li
            bind (sweep fits (fst c)) (fun q =>
              run_iters E G iters picks (snd c) (snd q) (fst q) s0)))) e.
 
+(* a history: the space is created with the function set of E0, then `functions` is re-assigned (environment E)
+   before the run *)
+Definition case_run2 (E0 E : genv) (G : gp_params) (n_trees iters : nat) (picks : list nat) (ds : list frac)
+           (fits : list Z) (e : list (list num)) : bool :=
+  chk (bind (create_trees E0 n_trees ds) (fun c =>
+         bind (snapshot (g_nt E) (fst c)) (fun s0 =>
+           bind (sweep fits (fst c)) (fun q =>
+             run_iters E G iters picks (snd c) (snd q) (fst q) s0)))) e.
+
+(* general.tournament_selection alone *)
+Definition case_tourn (tsize : nat) (fits : list Z) (k : nat) (picks : list nat) (e : list (list num)) : bool :=
+  chk (bind (tournament tsize fits k picks) (fun r =>
+         Ok [map N.of_nat (fst r); [N.of_nat (length (snd r))]])) e.
+
 Fixpoint mismatches_from (l : list bool) (i : nat) : list nat :=
   match l with [] => [] | b :: l' => if b then mismatches_from l' (S i) else i :: mismatches_from l' (S i) end.
 Definition bad_cases (l : list bool) : list nat := mismatches_from l 0.
